@@ -138,6 +138,16 @@ def run(tier, seed, replay):
                   ".[] |= (.. |= (numbers |= empty))?", "path(..) as $p | getpath($p) |= (.[]? |= empty)", "[paths] as $ps | reduce $ps[] as $p (.; getpath($p) |= (if type == \"number\" then empty else . end))?"]
         nestin = [jqgen.V(x) for x in ({"a": 1, "b": {"c": 2, "d": 3}}, {"a": 1, "b": {"c": 1, "d": 2}, "e": 3}, [1, [1, 2], {"c": 1, "x": 2}, 3], {"a": {"x": 1, "c": 2}, "b": {"c": 3}}, [[1, 2, 3], [4, [5, 6]], 7], {"k": [1, {"c": [2, 3]}], "m": 1},
                                            [{"c": 1}, {"c": 2, "d": [3, 3]}, 1, 2, 3, 4, 5, 6, 7, 8, 9], [[[1, 2], [3]], [[4]], 5], {}, [], 1)]
+        # one `|=` whose paths write below an element, then through a SLICE covering it with a body that duplicates the element, then into one of the
+        # copies: the copies stay independent (the value handed to the body is released from in-place updating together with everything below it)
+        dupf = ["if type == \"array\" then [.[0], .[0]] else 5 end", "if type == \"array\" then . + . else 5 end", "if type == \"array\" then [.[0], .[0], .[0]] else (. // 1) + 1 end",
+                "if type == \"array\" then [.[]?, .[]?] else [.] end", "if type == \"array\" then {a: .[0], b: .[0]} else 7 end", "if type == \"array\" then [., .] else 0 end"]
+        dupp = ["(.[0].x, .[0:1], .[0].y)", "(.[0].x, .[0:1], .[1].y)", "(.[0].x, .[:1], .[1].x, .[0].y)", "(.[0][0], .[0:1], .[0][1], .[1][1])", "(.[1].x, .[0:2], .[3].y, .[1].y)", "(.[0].x, .[0:1], .[0:1], .[0][0].y?)",
+                "(.[0].x.z?, .[0:1], .[0].x, .[1].x)", "(.a[0].x, .a[0:1], .a[0].y, .a[1].y)", "(.[0].x, .[0:2][0:1], .[0].y)", "(.[-1].x?, .[-1:], .[-1].y?, .[0].y?)"]
+        dupin = [jqgen.V(x) for x in ([{"x": 0, "y": 0}, 7], [{"x": 0, "y": 0}, {"x": 1, "y": 1}, 2], [[0, 1], [2, 3]], {"a": [{"x": 0, "y": 0}, 7]}, [{"x": {"z": 0}, "y": 0}], [{"x": 0, "y": 0}])]
+        for pth in dupp:
+            for f in (dupf if not quick else r.sample(dupf, 3)):
+                add("%s |= (%s)" % (pth, f), dupin, MODIFY_DEF + "_m(%s; %s)" % (pth, f))
         for q in nested:
             add(q, nestin, None)
             add("(%s), (%s)" % (q, q), r.sample(nestin, 4), None)
